@@ -90,6 +90,17 @@ func c44Tiers(i int) []*proto.TierInfo {
 	return []*proto.TierInfo{{Name: "default", IngressPolicies: pols, EgressPolicies: pols[:1]}}
 }
 
+// Selector variants of policy pol-a-e<i> (pol-b-e<i> always has variant 0). With equal selectors the two policies of
+// endpoint i form ONE non-inlined group (a shared group chain); with different selectors two inlined groups.
+var c44Selectors = []string{"all()", "has(x)"}
+
+func c44PolicyUpdate(name string, v int) *proto.ActivePolicyUpdate {
+	return &proto.ActivePolicyUpdate{
+		Id:     &proto.PolicyID{Name: name, Kind: apiv3.KindGlobalNetworkPolicy},
+		Policy: &proto.Policy{OriginalSelector: c44Selectors[v]},
+	}
+}
+
 func c44Proto(i int, e *c44Ep, pol bool) *proto.WorkloadEndpoint {
 	st := "inactive"
 	if e.up {
@@ -222,6 +233,8 @@ var c44Bases = map[string][]c44Ev{
 	// names3 universe: all three names in use, the child dispatch chain for prefix "cali1" exists
 	"tree3": {
 		{kind: "upd", id: 0, ep: c44Ep{"cali1a", true}}, {kind: "upd", id: 1, ep: c44Ep{"cali1b", true}}, {kind: "upd", id: 2, ep: c44Ep{"cali2x", false}}, {kind: "flush"}},
+	"one-up": {
+		{kind: "upd", id: 0, ep: c44Ep{"cali1", true}}, {kind: "flush"}},
 	"split": {
 		{kind: "upd", id: 1, ep: c44Ep{"cali1", true}}, {kind: "upd", id: 2, ep: c44Ep{"cali1", true}}, {kind: "upd", id: 0, ep: c44Ep{"cali2", true}}, {kind: "flush"}},
 }
@@ -241,6 +254,8 @@ type c44State struct {
 	nFlush   int
 	shadowed bool // some flush happened while >=2 live endpoints claimed one name
 	renamed  bool // some live endpoint changed its interface name somewhere in the history
+	polSel   []int // pol variant: current selector variant of pol-a-e<i>
+	nSince   int   // data events since the last flush
 	// ownerAndShadowed: some flush in the history applied a batch that touched BOTH the owner of an interface name
 	// and an endpoint shadowed on that name (only used to classify violation keys)
 	ownerAndShadowed bool
@@ -325,6 +340,14 @@ func c44New(cfg c44Cfg) *c44State {
 	)
 	st.sched = &c44Sched{prio: c44Perm(cfg.nIDs, 0)}
 	c44Scheds.Store(st.m, st.sched)
+	st.polSel = make([]int, cfg.nIDs)
+	if cfg.pol {
+		// the calc graph announces a policy before the first endpoint that uses it
+		for i := 0; i < cfg.nIDs; i++ {
+			st.m.OnUpdate(c44PolicyUpdate(fmt.Sprintf("pol-a-e%d", i), 0))
+			st.m.OnUpdate(c44PolicyUpdate(fmt.Sprintf("pol-b-e%d", i), 0))
+		}
+	}
 	st.flush(0)
 	st.nFlush = 0
 	st.baseline = map[string]bool{}
@@ -361,6 +384,7 @@ func (st *c44State) flush(k int) {
 		panic(err)
 	}
 	st.nFlush++
+	st.nSince = 0
 	for _, n := range st.names() {
 		if len(st.claimants(n)) > 1 {
 			st.shadowed = true
@@ -386,7 +410,7 @@ func (st *c44State) claimants(name string) []int {
 }
 
 type c44Ev struct {
-	kind string // "upd", "rm", "flush"
+	kind string // "upd", "rm", "flush", "polsel" (ActivePolicyUpdate changing the selector of pol-a-e<id> to variant perm)
 	id   int
 	ep   c44Ep
 	perm int
@@ -398,6 +422,8 @@ func (e c44Ev) String() string {
 		return fmt.Sprintf("upd(e%d,%s)", e.id, e.ep.String())
 	case "rm":
 		return fmt.Sprintf("rm(e%d)", e.id)
+	case "polsel":
+		return fmt.Sprintf("polsel(pol-a-e%d,%d)", e.id, e.perm)
 	default:
 		return fmt.Sprintf("flush:%d", e.perm)
 	}
@@ -421,7 +447,16 @@ func c44Enabled(st *c44State, depth int) []c44Ev {
 		}
 		evs = append(evs, c44Ev{kind: "rm", id: i}) // includes removal of an absent endpoint
 	}
-	if st.cfg.batched && len(st.m.pendingWlEpUpdates) > 0 {
+	if st.cfg.pol {
+		for i := 0; i < st.cfg.nIDs; i++ {
+			for v := range c44Selectors {
+				if v != st.polSel[i] {
+					evs = append(evs, c44Ev{kind: "polsel", id: i, perm: v})
+				}
+			}
+		}
+	}
+	if st.cfg.batched && st.nSince > 0 {
 		involved := len(st.m.pendingWlEpUpdates) + len(st.m.shadowedWlEndpoints)
 		n := 1
 		if involved > 1 {
@@ -473,10 +508,15 @@ func c44Apply(st *c44State, e c44Ev) {
 		st.noteTouched(e.id)
 		st.live[e.id] = nil
 		st.m.OnUpdate(&proto.WorkloadEndpointRemove{Id: c44ProtoID(e.id)})
+	case "polsel":
+		st.batch = append(st.batch, "polsel")
+		st.polSel[e.id] = e.perm
+		st.m.OnUpdate(c44PolicyUpdate(fmt.Sprintf("pol-a-e%d", e.id), e.perm))
 	case "flush":
 		st.flush(e.perm)
 		return
 	}
+	st.nSince++
 	if !st.cfg.batched {
 		st.flush(0)
 	}
@@ -584,6 +624,9 @@ func (st *c44State) envString() string {
 	for i, e := range st.live {
 		parts = append(parts, fmt.Sprintf("e%d=%s", i, e.String()))
 	}
+	if st.cfg.pol {
+		parts = append(parts, fmt.Sprintf("selectors=%v", st.polSel))
+	}
 	return strings.Join(parts, " ")
 }
 
@@ -660,6 +703,11 @@ func (st *c44State) refWinners() *c44Ref {
 	var runs []map[string]int
 	for _, desc := range []bool{false, true} {
 		f := c44New(c44Cfg{nIDs: st.cfg.nIDs, ipvs: st.cfg.ipvs, pol: st.cfg.pol, names3: st.cfg.names3})
+		for i, v := range st.polSel {
+			if v != 0 {
+				c44Apply(f, c44Ev{kind: "polsel", id: i, perm: v})
+			}
+		}
 		for j := 0; j < len(st.live); j++ {
 			i := j
 			if desc {
@@ -710,6 +758,9 @@ func c44Check(st *c44State, hist []c44Ev) []hbfs.Fail {
 			return []hbfs.Fail{{Key: "C44:pending-updates-left-after-flush", Msg: fmt.Sprint(st.m.pendingWlEpUpdates)}}
 		}
 		return nil // mid-batch: the statement speaks about the state after the updates have been applied
+	}
+	if st.nSince > 0 {
+		return nil // mid-batch (e.g. only a policy update queued so far)
 	}
 	var fails []hbfs.Fail
 	trig := st.trigger()
@@ -890,6 +941,15 @@ func c44Key(st *c44State) string {
 	}
 	sort.Strings(parts)
 	fmt.Fprintf(&sb, "pg{%s} ", strings.Join(parts, ","))
+	parts = parts[:0]
+	for id, sel := range m.activePolicySelectors {
+		parts = append(parts, id.Name+"="+sel)
+	}
+	for id := range m.dirtyPolicyIDs.All() {
+		parts = append(parts, "dirty:"+id.Name)
+	}
+	sort.Strings(parts)
+	fmt.Fprintf(&sb, "sel{%s} since=%v ", strings.Join(parts, ","), st.nSince > 0)
 	rec := m.wlIfaceNamesToReconfigure.Slice()
 	sort.Strings(rec)
 	fmt.Fprintf(&sb, "renamed=%v oas=%v reconf%v flags=%v/%v spoof=%d ", st.renamed, st.ownerAndShadowed, rec, m.needToCheckDispatchChains, m.needToCheckEndpointMarkChains, len(m.sourceSpoofingConfig))
@@ -905,7 +965,7 @@ func c44Spec(cfg c44Cfg, name string, depth int, graph bool) *hbfs.Spec[*c44Stat
 		Name:     name,
 		New:      func() *c44State { return c44New(cfg) },
 		Apply:    func(st *c44State, e c44Ev) {
-			if e.kind != "flush" && len(st.m.pendingWlEpUpdates) == 0 {
+			if e.kind != "flush" && st.nSince == 0 {
 				st.batch = nil
 			}
 			c44Apply(st, e)
@@ -917,10 +977,10 @@ func c44Spec(cfg c44Cfg, name string, depth int, graph bool) *hbfs.Spec[*c44Stat
 		MaxDepth: depth,
 		Workers:  6,
 		Nontrivial: func(st *c44State) bool {
-			return st.shadowed && len(st.m.pendingWlEpUpdates) == 0
+			return st.shadowed && st.nSince == 0
 		},
 		Outcome: func(st *c44State) string {
-			if len(st.m.pendingWlEpUpdates) > 0 {
+			if st.nSince > 0 {
 				return "mid-batch"
 			}
 			var parts []string
@@ -953,7 +1013,7 @@ func TestVerif_C44(t *testing.T) {
 	gomega.RegisterFailHandler(func(m string, _ ...int) { panic("gomega: " + m) })
 	vk.Run(t, "C44", func(c *vk.Ctx) {
 		c.Rule("state = (reference environment: last update per endpoint id; endpointManager internals: active/shadowed/pending endpoint maps, iface->id map, per-id chain lists, dirty flags; mock filter table contents; mock route table); " +
-			"transition = WorkloadEndpointUpdate(id, iface name, admin state) incl. duplicates and renames, WorkloadEndpointRemove(id) incl. absent ids, and (batched system) flush:k with k = the order in which the pending-update map is visited; " +
+			"transition = WorkloadEndpointUpdate(id, iface name, admin state) incl. duplicates and renames, WorkloadEndpointRemove(id) incl. absent ids, (policy variant) ActivePolicyUpdate changing the selector of a policy referenced by an endpoint's tier, and (batched system) flush:k with k = the order in which the pending-update map is visited; " +
 			"each transition replays the history on a fresh real endpointManager; non-trivial = a flushed state whose history had >=2 live endpoints claiming one interface name")
 		c.Assume("rendering of one endpoint's chains is delegated to the real rules renderer on both sides of the comparison (the property is about WHICH endpoint's state an interface carries)")
 		c.Assume("batched system: `range m.pendingWlEpUpdates` is redirected (source rewrite at build time) to an iterator whose visiting order is a priority permutation of the endpoint ids chosen by the flush event; an entry added during the pass is visited in the same pass, ordered by the same priorities")
@@ -1037,6 +1097,11 @@ func TestVerif_C44(t *testing.T) {
 		hbfs.Explore(c, c44Spec(c44Cfg{nIDs: 3, names3: true, batched: true, base: "tree3"}, "wep-batched-names3-base-tree3-graph", c.Pick(3, 5), true))
 		// 5. endpoints with a reference-counted policy-group chain
 		hbfs.Explore(c, c44Spec(c44Cfg{nIDs: 3, pol: true}, "wep-atomic-pol-3ids-graph", c.Pick(6, 20), true))
+		// 5b. policy selector changes (ActivePolicyUpdate for a policy the endpoints' tiers reference) falling into
+		//     the same batch as updates / removals of those endpoints
+		for _, bn := range []string{"one-up", "two-on-cali1"} {
+			hbfs.Explore(c, c44Spec(c44Cfg{nIDs: 3, batched: true, pol: true, base: bn}, "wep-batched-pol-base-"+bn+"-graph", c.Pick(3, 5), true))
+		}
 		if c.Thorough() {
 			hbfs.Explore(c, c44Spec(c44Cfg{nIDs: 4}, "wep-atomic-4ids-graph", 20, true))
 		}
